@@ -239,7 +239,11 @@ def decide(pid, tier, seed, replay, t0):
     with Lock():
         g = extract.main()
         mod = importlib.import_module("props." + pid.lower())
-        prop_modules = list(mod.LEAN_MODULES)
+        prop_modules = [m for m in mod.LEAN_MODULES
+                        if os.path.exists(os.path.join(LEAN, m.replace(".", "/") + ".lean"))]
+        if len(prop_modules) != len(mod.LEAN_MODULES):
+            log("note: theorem module(s) not present yet: %s (property not claimed in MANIFEST until they exist)" % (
+                sorted(set(mod.LEAN_MODULES) - set(prop_modules))))
         problems, info = build_and_audit(prop_modules)
         if tier == "thorough" and not problems:
             rc, out = sh(["lake", "env", "leanchecker"] + prop_modules, cwd=LEAN, timeout=3000)
